@@ -29,7 +29,8 @@ SumSeq(s) == IF s = <<>> THEN 0 ELSE Head(s) + SumSeq(Tail(s))
 NewJumper(n) == [card |-> <<>>, best |-> 0, bidx |-> 0, elim |-> FALSE, dism |-> FALSE,
                  lim |-> 3, cf |-> 0, p |-> n, pub |-> 0]
 
-EmptyHJ == [state |-> "scheduled", heights |-> <<>>, order |-> <<>>, ranked |-> <<>>,
+\* `bar` is the public bar_height attribute (0 before the first height)
+EmptyHJ == [state |-> "scheduled", heights |-> <<>>, bar |-> 0, order |-> <<>>, ranked |-> <<>>,
             j |-> <<>>, log |-> <<>>]
 
 Bibs(hj) == DOMAIN hj.j
@@ -135,7 +136,7 @@ SetBar(hj, h) ==
     ELSE <<"ok", [hj EXCEPT !.state = IF @ = "scheduled" THEN "started" ELSE @,
                             !.j = TLCEval([b \in DOMAIN hj.j |-> IF hj.j[b].elim THEN hj.j[b]
                                                        ELSE [hj.j[b] EXCEPT !.dism = FALSE]]),
-                            !.heights = Append(@, h),
+                            !.heights = Append(@, h), !.bar = h,
                             !.log = Append(@, Entry("bar", "", h))]>>
 
 CheckStarted(hj, b) ==   \* TRUE = may proceed
@@ -318,7 +319,7 @@ StateRank(s) == CASE s = "scheduled" -> 0 [] s = "started" -> 1 [] s \in {"jumpo
 
 \* the observables the properties name
 PublicPlace(jr) == jr.pub   \* the public `place` attribute; 0 stands for the empty string
-Obs(hj) == [state |-> hj.state, heights |-> hj.heights,
+Obs(hj) == [state |-> hj.state, heights |-> hj.heights, bar |-> hj.bar,
             cards |-> [b \in DOMAIN hj.j |-> hj.j[b].card],
             bests |-> [b \in DOMAIN hj.j |-> hj.j[b].best],
             places |-> [b \in DOMAIN hj.j |-> PublicPlace(hj.j[b])],
